@@ -5,6 +5,7 @@ import (
 	"fmt"
 	"io"
 	"log/slog"
+	"math"
 	"net/http"
 	"strconv"
 	"strings"
@@ -190,7 +191,9 @@ func parseRangeHeader(rangeHeader string) ([]storage.ByteRange, error) {
 		} else if start != nil {
 			// Normal range: convert inclusive end to exclusive end
 			var exclusiveEnd *int64
-			if end != nil {
+			if end != nil && *end < math.MaxInt64 {
+				// A last-byte-pos of math.MaxInt64 cannot be made exclusive without overflowing;
+				// it lies beyond any object, so the range extends to the end of the object.
 				excEnd := *end + 1
 				exclusiveEnd = &excEnd
 			}
